@@ -174,7 +174,7 @@ def rule_Y3(ctx: Ctx) -> None:
               "paths are drawn transposed or off-centre")
     g = ctx.index.func(f"{MP}._plot_path")
     tr = X.assignments_to(g.node, "p_transformed")
-    ok = len(tr) == 1 and X.U(tr[0]).replace(" ", "") == "np.array([self._rowcol_to_coord(coord)forcoordinpath_format.path])"
+    ok = len(tr) == 1 and X.same_expr(tr[0], "np.array([self._rowcol_to_coord(coord) for coord in path_format.path])")
     xs = [X.U(d).replace(" ", "") for d in X.assignments_to(g.node, "x")]
     ys = [X.U(d).replace(" ", "") for d in X.assignments_to(g.node, "y")]
     ok = ok and set(xs) == {"p_transformed[:,0]"} and set(ys) == {"p_transformed[:,1]"}
@@ -191,7 +191,7 @@ def rule_Y3(ctx: Ctx) -> None:
               "only an empty path is skipped: every listed cell - also a single one - is drawn",
               "a one-cell path (start == end) is silently not drawn")
     h = ctx.index.func(f"{MP}._place_marked_coords")
-    ok = "self._rowcol_to_coord(coord)" in X.U(h.node)
+    ok = "self._rowcol_to_coord" in X.U(h.node)
     ctx.judge(h, ok, {}, "markers use the same coordinate mapping")
 
 
